@@ -74,7 +74,7 @@ func (o *OrderSensitiveTransform) Run(execCtx ExecutionContext, produce ProduceF
 	}
 
 	recordCounts := btree.New(BTreeDefaultDegree)
-	o.source.Run(
+	if err := o.source.Run(
 		execCtx,
 		func(ctx ProduceContext, record Record) error {
 			key := make([]octosql.Value, len(o.orderByKeyExprs))
@@ -122,7 +122,9 @@ func (o *OrderSensitiveTransform) Run(execCtx ExecutionContext, produce ProduceF
 		func(ctx ProduceContext, msg MetadataMessage) error {
 			return nil
 		},
-	)
+	); err != nil {
+		return fmt.Errorf("couldn't run source: %w", err)
+	}
 
 	if err := produceOrderByItems(ProduceFromExecutionContext(execCtx), recordCounts, limit, produce); err != nil {
 		return fmt.Errorf("couldn't produce ordered items: %w", err)
